@@ -23,7 +23,9 @@ type Obl struct {
 	NLines int
 	Pos    string
 	Tags   []string
-	Extra  []string // extra hypotheses (known-finding residuals)
+	Extra  []string // extra hypotheses
+	Except  string   // known finding: SMT term of the recorded failing region (over the entry state)
+	Finding *Finding
 	Src    string   // human-readable text of what is being proved
 }
 
@@ -47,6 +49,8 @@ type Enc struct {
 	refSerial map[string]int
 	dry       int // >0 while dry-running a loop body to find its write set
 	caseKey   string
+	topNames  map[string]Val
+	h0        *Heap
 }
 
 type WatchTerm struct {
@@ -746,4 +750,91 @@ func (e *Enc) topKey() string {
 		return strings.Replace(e.caseKey, "#case", "@case", 1)
 	}
 	return funcKey(e.top.fn)
+}
+
+// watchParams registers the terms whose model values describe the pre-state reachable from the parameters.
+func (e *Enc) watchParams() {
+	if e.watch != nil || e.topNames == nil {
+		return
+	}
+	seen := map[string]bool{}
+	var names []string
+	for n := range e.topNames {
+		names = append(names, n)
+	}
+	sort.Strings(names)
+	done := map[string]bool{}
+	for _, n := range names {
+		v := e.topNames[n]
+		k := fmt.Sprint(comps2(v))
+		if done[k] {
+			continue
+		}
+		done[k] = true
+		func() {
+			defer func() { recover() }()
+			e.watchVal(n, v, e.h0, 0, seen)
+		}()
+	}
+}
+
+func comps2(v Val) []string {
+	defer func() { recover() }()
+	return comps(v)
+}
+
+func (e *Enc) watchVal(label string, v Val, h *Heap, depth int, seen map[string]bool) {
+	if depth > 6 || len(e.watch) > 1500 {
+		return
+	}
+	switch v.K {
+	case kScalar:
+		ct := e.P.concreteOf(v.T)
+		if nt, st := namedStruct(ct); nt != nil {
+			if _, isPtr := ct.Underlying().(*types.Pointer); isPtr {
+				e.watch = append(e.watch, WatchTerm{label + "@ref", v.S})
+				key := typeKey(nt) + "|" + v.S
+				if seen[key] {
+					return
+				}
+				seen[key] = true
+				for i := 0; i < st.NumFields(); i++ {
+					f := st.Field(i)
+					if _, isMap := f.Type().Underlying().(*types.Map); isMap {
+						continue
+					}
+					if _, isFn := f.Type().Underlying().(*types.Signature); isFn {
+						continue
+					}
+					if f.Type().String() == "sync.RWMutex" {
+						continue
+					}
+					fv := e.loadAt(h, &Addr{K: aField, Base: v.S, Root: nt, Path: []int{i}, N: -1})
+					e.watchVal(label+"."+f.Name(), fv, h, depth+1, seen)
+				}
+				return
+			}
+		}
+		if _, ok := v.T.Underlying().(*types.Basic); ok {
+			e.watch = append(e.watch, WatchTerm{label, v.S})
+		} else {
+			e.watch = append(e.watch, WatchTerm{label + "@ref", v.S})
+		}
+	case kStruct:
+		st := v.T.Underlying().(*types.Struct)
+		for i, f := range v.Fs {
+			e.watchVal(label+"."+st.Field(i).Name(), f, h, depth, seen)
+		}
+	case kSlice:
+		e.watch = append(e.watch, WatchTerm{label + "#len", v.Len})
+		et := v.T.Underlying().(*types.Slice).Elem()
+		n := 9
+		if depth >= 4 {
+			n = 8
+		}
+		for i := 0; i < n; i++ {
+			ev := e.loadAt(h, &Addr{K: aElem, Base: v.Arr, Idx: num(int64(i)), Root: et, N: -1})
+			e.watchVal(fmt.Sprintf("%s[%d]", label, i), ev, h, depth+1, seen)
+		}
+	}
 }
